@@ -62,6 +62,23 @@ def raised_class(p, module, raise_node, scope=None):
     if nm:
         return ("errors", nm)
     r = p.resolve_expr(module, callee, scope)
+    if (r is None or r[0] == "local") and isinstance(exc, ast.Call) and isinstance(callee, ast.Name):
+        # `raise make_error(...)` with make_error a nested function of the enclosing scopes
+        from sa.cfg import _lookup_def
+
+        h = _lookup_def(exc)
+        if h is not None:
+            kinds = set()
+            for v in [x.value for x in walk_no_nested(h) if isinstance(x, ast.Return) and x.value is not None]:
+                c = v.func if isinstance(v, ast.Call) else v
+                nm2 = resolves_to_errors_class(p, module, c, h)
+                if nm2:
+                    kinds.add(("errors", nm2))
+                else:
+                    rr = p.resolve_expr(module, c, h)
+                    kinds.add(("builtin", rr[1]) if rr and rr[0] == "builtin" else ("unknown", src(c)))
+            if len(kinds) == 1:
+                return kinds.pop()
     if r is None:
         return ("unknown", src(callee))
     if r[0] == "builtin":
@@ -366,6 +383,127 @@ def cfg_of(f):
     return c
 
 
+_SPECIALISED = {}
+
+
+def specialised(p, cls, name, depth=3):
+    """The method `name` as it runs for instances of `cls`: the definition found through the MRO, with calls of
+    `self.<hook>(...)` replaced by the hook's returned expression when the hook (resolved for `cls`) is straight-line
+    code ending in one `return E` (template-method classes read like the hand-written per-class code).  Returns a Func
+    whose node is a structural copy (parents set) registered with the project, or None when cls has no such method."""
+    from sa.cfg import _clone, _set_parents
+    from sa.core import Func
+
+    key = (id(p), cls.qualname, name)
+    if key in _SPECIALISED:
+        return _SPECIALISED[key]
+    m = p.lookup_method(cls, name)
+    if m is None:
+        _SPECIALISED[key] = None
+        return None
+    node = _clone(m.node)
+    selfname = m.params[0] if m.params else "self"
+
+    class Sub(ast.NodeTransformer):
+        def __init__(self, mapping):
+            self.mapping = mapping
+
+        def visit_Name(self, n):
+            if isinstance(n.ctx, ast.Load) and n.id in self.mapping:
+                return ast.copy_location(_clone(self.mapping[n.id]), n)
+            return n
+
+    changed_any = False
+
+    def expand(call, level):
+        nonlocal changed_any
+        if level > depth:
+            return None
+        if not (isinstance(call.func, ast.Attribute) and isinstance(call.func.value, ast.Name) and call.func.value.id == selfname):
+            return None
+        h = p.lookup_method(cls, call.func.attr)
+        if h is None or h.node.args.vararg or h.node.args.kwarg or any(isinstance(a, ast.Starred) for a in call.args) or any(k.arg is None for k in call.keywords):
+            return None
+        body = [st for st in h.node.body if not (isinstance(st, ast.Expr) and isinstance(st.value, ast.Constant)) and not isinstance(st, (ast.Assert, ast.Pass))]
+        if len(body) != 1 or not isinstance(body[0], ast.Return) or body[0].value is None:
+            return None
+        params = h.params[1:]
+        mapping = {h.params[0]: ast.Name(id=selfname, ctx=ast.Load())}
+        for i, a in enumerate(call.args):
+            if i >= len(params):
+                return None
+            mapping[params[i]] = a
+        for k in call.keywords:
+            mapping[k.arg] = k.value
+        defaults = dict(zip(params[len(params) - len(h.node.args.defaults) :], h.node.args.defaults))
+        for q in params:
+            if q not in mapping:
+                if q not in defaults:
+                    return None
+                mapping[q] = defaults[q]
+        if any(isinstance(y, ast.Name) and not isinstance(y.ctx, ast.Load) and y.id in mapping for y in ast.walk(body[0].value)):
+            return None
+        changed_any = True
+        return Sub(mapping).visit(_clone(body[0].value))
+
+    class Inl(ast.NodeTransformer):
+        def __init__(self):
+            self.level = 0
+
+        def visit_Call(self, c):
+            self.generic_visit(c)
+            new = expand(c, self.level)
+            if new is None:
+                return c
+            self.level += 1
+            try:
+                new = self.visit(new) if isinstance(new, ast.AST) else new
+            finally:
+                self.level -= 1
+            return ast.copy_location(new, c)
+
+    node.body = [Inl().visit(st) for st in node.body]
+
+    # `return self._rewrite(x, transform)` with a multi-statement hook: the hook's statements take the place of the return
+    def splice(stmts, level):
+        out = []
+        for st in stmts:
+            for fld in ("body", "orelse", "finalbody"):
+                blk = getattr(st, fld, None)
+                if isinstance(blk, list) and blk and isinstance(blk[0], ast.stmt) and not isinstance(st, (ast.FunctionDef, ast.ClassDef)):
+                    setattr(st, fld, splice(blk, level))
+            if isinstance(st, ast.Return) and isinstance(st.value, ast.Call) and level < depth:
+                c = st.value
+                if isinstance(c.func, ast.Attribute) and isinstance(c.func.value, ast.Name) and c.func.value.id == selfname and not c.keywords and not any(isinstance(a, ast.Starred) for a in c.args):
+                    h = p.lookup_method(cls, c.func.attr)
+                    if h is not None and h.node is not m.node and not h.node.args.vararg and not h.node.args.kwarg and len(c.args) == len(h.params) - 1:
+                        params = h.params[1:]
+                        stored = {y.id for y in ast.walk(h.node) if isinstance(y, ast.Name) and not isinstance(y.ctx, ast.Load)}
+                        same = all(isinstance(a, ast.Name) and a.id == q for a, q in zip(c.args, params))
+                        if same or not (stored & set(params)):
+                            mapping = {h.params[0]: ast.Name(id=selfname, ctx=ast.Load())}
+                            if not same:
+                                mapping.update(dict(zip(params, c.args)))
+                            body = [Inl().visit(Sub(mapping).visit(_clone(b))) for b in h.node.body if not (isinstance(b, ast.Expr) and isinstance(b.value, ast.Constant))]
+                            out.extend(splice(body, level + 1))
+                            continue
+            out.append(st)
+        return out
+
+    node.body = splice(node.body, 0)
+    ast.fix_missing_locations(node)
+    _set_parents(node)
+    node._parent = getattr(m.node, "_parent", None)
+    f = Func(qualname=f"{cls.module.name}::{cls.name}.{name}", module=m.module, node=node, cls=cls, parent=None)
+    p.func_of_node[id(node)] = f
+    # nested functions of the copy belong to it as well
+    for x in ast.walk(node):
+        if isinstance(x, (ast.FunctionDef, ast.Lambda)) and x is not node:
+            p.func_of_node.setdefault(id(x), Func(qualname=f"{f.qualname}.<nested>", module=m.module, node=x, cls=None, parent=f))
+    _SPECIALISED[key] = f
+    return f
+
+
 def zip_alignment(fnode):
     """Lockstep lists.  `zip(L, S)` pairs the i-th element of L with the i-th element of S; when L was built by appends in
     a `for v in S:` loop, that only lines up if every trip through the loop body appends exactly one element.
@@ -458,6 +596,17 @@ def _append_counts(stmts, name):
     if out is None:
         return None
     return out | done
+
+
+def walk_with_lambdas(fnode):
+    """like walk_no_nested, but lambdas (which are no functions of their own in the project model) are descended into"""
+    stack = list(ast.iter_child_nodes(fnode))
+    while stack:
+        n = stack.pop()
+        yield n
+        if isinstance(n, (ast.FunctionDef, ast.AsyncFunctionDef, ast.ClassDef)):
+            continue
+        stack.extend(ast.iter_child_nodes(n))
 
 
 def lexical_facts(g, node, stop=None):
@@ -832,11 +981,24 @@ def guard_after_use(fnode):
             if not isinstance(st, ast.Assign) or d.kind != "stmt":
                 continue
             subs = [x for x in ast.walk(st.value) if isinstance(x, ast.Subscript) and isinstance(x.value, (ast.Name, ast.Subscript)) and chain_root_name(x) == S]
+            extra_depth = 0
+            if not subs:
+                # one hop through an element bound to a local first: `group = S[-1]` / `group = S.pop()`; `opener = group[0]`
+                for x in ast.walk(st.value):
+                    if isinstance(x, ast.Subscript) and isinstance(x.value, (ast.Name, ast.Subscript)):
+                        R = chain_root_name(x)
+                        rdefs = rd.defs_reaching(d, R) if R else []
+                        if len(rdefs) == 1 and isinstance(byid[rdefs[0]].ast, ast.Assign) and byid[rdefs[0]].kind == "stmt":
+                            v2 = byid[rdefs[0]].ast.value
+                            elem_of_S = (isinstance(v2, ast.Subscript) and chain_root_name(v2) == S) or (isinstance(v2, ast.Call) and isinstance(v2.func, ast.Attribute) and v2.func.attr == "pop" and isinstance(v2.func.value, ast.Name) and v2.func.value.id == S)
+                            if elem_of_S and not any(t is not None and S in {y.id for y in ast.walk(t) if isinstance(y, ast.Name)} for t, pol in cfg.guards(byid[rdefs[0]])):
+                                subs.append(x)
+                                extra_depth = 1
             if not subs:
                 continue
             # the subscript can actually fail: the function itself creates `S` (depth 1) / an element of `S`
             # (depth 2) as an empty list, so "long enough" is not guaranteed by construction
-            depth = 0
+            depth = extra_depth
             x = subs[0]
             while isinstance(x, ast.Subscript):
                 depth += 1
@@ -847,7 +1009,7 @@ def guard_after_use(fnode):
             if any(t is not None and S in {y.id for y in ast.walk(t) if isinstance(y, ast.Name)} for t, pol in cfg.guards(d)):
                 continue
             # same S at both places
-            if rd.defs_reaching(d, S) != rd.defs_reaching(node, S):
+            if rd.defs_reaching(d, S) != rd.defs_reaching(node, S) and not extra_depth:
                 continue
             out.append((b, S, v, st))
     return len(tests), out
